@@ -121,8 +121,8 @@ fn run_life(pool: &dyn Pool, nf: usize, life: &Value) {
                     interpose::QUIET_FAILS.store(false, SeqCst);
                     watch::diff_all("install-end");
                     match r {
-                        Ok(()) => emit(json!({"ev":"InstallEnd","outcome":"ok","cls":"","lock":lock_state(),
-                            "live":interpose::owned_live()})),
+                        Ok(()) => emit(json!({"ev":"InstallEnd","outcome": if spec.gate == "abandon" { "abandoned" } else { "ok" },
+                            "cls":"","lock":lock_state(),"live":interpose::owned_live()})),
                         Err(p) => {
                             let msg = panics::payload_str(&*p);
                             let (cls, _, _) = panics::classify(&msg);
